@@ -537,7 +537,7 @@ def _get_leftmost(start):
 
     while do or p != start:
         do = False
-        if p.x < leftmost.x:
+        if p.x < leftmost.x or (p.x == leftmost.x and p.y < leftmost.y):
             leftmost = p
         p = p.next
 
